@@ -241,6 +241,16 @@ structure Container where
   metaBytes : Bytes           -- stored metadata bytes
   tiles : List (Nat × Bytes)
 
+/-- What the matching reader can see again.  In the versatiles tile index and in a PMTiles
+    directory a zero-length byte range means "no tile" (versatiles/reader.rs:222-225
+    `tile_range.length == 0 → None`; pmtiles/reader.rs:212,229 `entry.range.length > 0`), so a stored
+    blob of length 0 is invisible there; tar, directory and mbtiles keep it. -/
+def Container.visible (c : Container) : List (Nat × Bytes) :=
+  match c.fmt with
+  | .versatiles => c.tiles.filter (fun t => !t.2.isEmpty)
+  | .pmtiles => c.tiles.filter (fun t => !t.2.isEmpty)
+  | _ => c.tiles
+
 /-- `convert_tiles_container`: converter reader → writer (stream path). -/
 def convertContainer (K : Codec) (r : Reader) (p : ConvParams) (f : Fmt) : Res Container :=
   match convStream K r p with
